@@ -42,8 +42,9 @@ type Hooks struct {
 }
 
 type Base struct {
-	H       Hooks
-	noAlias bool
+	H        Hooks
+	FollowGo bool // interpret `go func(){...}()` bodies in the state of the go statement
+	noAlias  bool
 	Inline  map[string]bool // funcKeys of callees to inline
 	exprs  []ast.Expr
 	exprID map[ast.Expr]int
@@ -210,7 +211,9 @@ func isTrackKey(k string) bool {
 	return strings.HasPrefix(k, "n:") || strings.HasPrefix(k, "b:") || strings.HasPrefix(k, "al:") ||
 		strings.HasPrefix(k, "p:") || strings.HasPrefix(k, "arg:") || strings.HasPrefix(k, "v:") ||
 		strings.HasPrefix(k, "c:") || strings.HasPrefix(k, "sub:") || strings.HasPrefix(k, "validated:") ||
-		strings.HasPrefix(k, "tm:") || strings.HasPrefix(k, "lin:")
+		strings.HasPrefix(k, "tm:") || strings.HasPrefix(k, "lin:") || strings.HasPrefix(k, "tpl:") ||
+		strings.HasPrefix(k, "okhash:") || strings.HasPrefix(k, "mangled:") || strings.HasPrefix(k, "rangeof:") ||
+		strings.HasPrefix(k, "elemvalid:") || strings.HasPrefix(k, "hexorsame:")
 }
 
 // Invalidate forgets everything known about term t (and what depends on it).
@@ -1115,6 +1118,9 @@ func (b *Base) zeroValue(x *Exec, id *ast.Ident, s St) St {
 	if isBoolType(typ) {
 		s = s.Set("b:"+t, "false")
 	}
+	if bt, ok := typ.Underlying().(*types.Basic); ok && bt.Kind() == types.String {
+		s = s.Set(`p:#""==`+t, "T")
+	}
 	return s
 }
 
@@ -1211,6 +1217,14 @@ func (b *Base) observeLHS(x *Exec, sel *ast.SelectorExpr, s St) {
 }
 
 func (b *Base) Node(x *Exec, n ast.Node, s St) []St {
+	if _, ok := n.(*LoopExit); ok {
+		if b.H.Stmt != nil {
+			if outs, handled := b.H.Stmt(x, n, s); handled {
+				return outs
+			}
+		}
+		return []St{s}
+	}
 	b.observe(x, n, s)
 	var out []St
 	for _, st := range b.everyCall(x, n, s) {
@@ -1329,6 +1343,14 @@ func (b *Base) node1(x *Exec, n ast.Node, s St) []St {
 	if b.H.Stmt != nil {
 		if outs, handled := b.H.Stmt(x, n, s); handled {
 			return outs
+		}
+	}
+	if gs, ok := n.(*ast.GoStmt); ok && b.FollowGo {
+		// interpret the goroutine's body with the facts known where it is
+		// started (its effects on the state are not kept: it runs concurrently)
+		if lit, ok := gs.Call.Fun.(*ast.FuncLit); ok && x.Depth < 4 {
+			y := x.sub(x.Fn.Lit(lit))
+			y.Run(s.Set("defers", ""))
 		}
 	}
 	return []St{s}
